@@ -1,6 +1,21 @@
-"""C15 — analysis functions are pure: no input mutation, no call-history dependence.  Model/Objects.v (Section Purity)."""
+"""C15 — analysis functions are pure: no input mutation, no call-history dependence.  Model/Purity.v (Section CleanRoom).
+
+Process layout (clean-room design).  The process that calls `run_impl` (a pool worker of harness.core, or the main
+process when shrinking / replaying) only IMPORTS the analysis library and never calls it (`_guard` trips otherwise).  For
+every case it forks
+  H — the history process: builds the shared argument objects and executes the whole history (calls and user edits) on them;
+  R — for every call of the history, a fresh child of the same pristine parent: it receives a pickle (= deep copy by value)
+      of the CURRENT argument objects, taken immediately before H makes the call, executes that one call and sends the
+      result back.  R has seen no other call: its result is the history-free reference.
+H compares its own result with R's; the parent only moves bytes between the two."""
 import copy
 import hashlib
+import json
+import os
+import pickle
+import select
+import struct
+import time
 import numpy as np
 from harness import coqio, gen
 from harness.core import exc_kind
@@ -9,70 +24,438 @@ PROP = 'C15'
 PROPS_FILE = 'Props/C15.v'
 COQ_HEADER = ('From Coq Require Import List ZArith NArith. Import ListNotations.\n'
               'From ByC Require Import Base.Result Harness.Compare Model.Objects Model.Purity.')
-COQ_RUNNER = 'bad_purity'
-COQ_TYPES = ('list Z * list nat', 'list Z * list nat')
-SHARD = 200
-RULE = ('random sequences (4-8 calls quick, 6-16 thorough) over the listed public API, %d call kinds: compute_features (both methods, '
-        'both centrings, empty option dictionaries), compute_shape_features / compute_burst_features (both methods, both centrings), '
-        'compute_cyclepoints, the individual shape functions (compute_durations, compute_extrema_voltage, compute_symmetry, '
-        'compute_band_amp), burst-feature functions (compute_amp_fraction, compute_amp_consistency, compute_period_consistency, '
-        'compute_monotonicity, compute_burst_fraction) and cyclepoint functions (find_extrema, find_zerox, '
-        'extrema_interpolated_phase) called directly with shared tables / arrays; compute_features_2d (axis 0 / None; dict, list, '
-        'amp-method and return_samples-carrying options), compute_features_3d (axis (0,1) / 0 / 1; dict, 1-D list, 2-D list, amp); '
-        'recompute_edges (peak, trough and burst-free tables), limit_df (both limits, start=None, stop=None, reset_indices=False), '
-        'epoch_df (short epochs, epoch_len >= signal length), drop_samples_df and the plotting functions (summary with / without '
-        'xlim, plot_only_result, interp=False, trough-centred and burst-free tables; cyclepoints from table and arrays; parameter, '
-        'histogram and categorical plots; Bycycle.plot) — all sharing ONE set of argument objects (signal array, option '
-        'dictionaries, tables, cyclepoint arrays); deep snapshots of every argument object before / after every call; equal calls '
-        'must return identical results wherever they occur. non-trivial = a sequence containing a repeated call separated by a '
-        'different call')
-ASSUMPTIONS = ['per-call frame conditions of the real code are established only on the explored sequences (partial)',
-               'the model lifts per-call purity to all sequences (proved)']
-CALL_NAMES = ['cf_cycles', 'cf_amp', 'cf_trough', 'shape', 'burst_cycles', 'burst_amp', 'cyclepoints', 'g2d_dict', 'g2d_list',
-              'g2d_none', 'g3d', 'rc_edges', 'limit_df', 'epoch_df', 'drop_samples', 'plot_summary', 'plot_cp_df', 'plot_cp_array',
-              'plot_param', 'plot_feature', 'cf_amp_empty_thr', 'cf_cycles_empty_thr', 'cf_amp_empty_bk', 'rc_edges_no_bursts',
-              'limit_df_no_bursts',
-              # widened (clause audit D, rank 11)
-              'g3d_ax0', 'g3d_ax1_list', 'g3d_ax0_list', 'g3d_grid', 'g2d_none_dict', 'g2d_amp', 'g2d_none_amp', 'g3d_amp', 'g2d_rs',
-              'g2d_list_rs', 'g2d_none_rs', 'durations', 'extrema_voltage', 'symmetry', 'band_amp', 'amp_fraction',
-              'amp_consistency', 'amp_consistency_next', 'period_consistency', 'monotonicity', 'burst_fraction', 'find_extrema',
-              'find_zerox', 'phase', 'shape_trough', 'burst_trough', 'burst_trough_amp', 'plot_categorical',
-              'plot_categorical_group', 'bm_plot', 'bm_plot_nolim', 'plot_summary_nolim', 'plot_summary_only', 'plot_summary_step',
-              'plot_summary_trough', 'plot_summary_quiet', 'plot_cp_df_nolim', 'plot_cp_df_trough', 'plot_param_nolim_step',
-              'plot_hist_all', 'limit_df_start_none', 'limit_df_stop_none', 'limit_df_noreset', 'epoch_df_all', 'epoch_df_longer',
-              'rc_edges_trough']
-NCALLS = len(CALL_NAMES)
-PLOTS = {n for n in CALL_NAMES if n.startswith(('plot_', 'bm_plot'))}
-RULE = RULE % NCALLS
+COQ_RUNNER = 'bad_cleanroom'
+COQ_TYPES = ('list Z * list (@hstep nat (list Z))', 'list Z * list (nat * bool * bool)')
+SHARD = 40
+RULE = ('histories (3-8 steps quick, 3-17 thorough) of public API calls and USER EDITS on ONE shared set of argument objects '
+        '(signal buffer, 2-D / 3-D arrays, option dictionaries, tables, cyclepoint arrays, a Bycycle and a BycycleGroup object). '
+        'Each history runs in its own freshly forked process; for EVERY call a clean-room reference is computed: the same call on '
+        'a by-value copy of the current argument objects in a fresh child of a parent that has never called the library; the two '
+        'results are compared cell by cell (column set, values, NaN pattern; arrays element-wise; plots and other documented '
+        'helpers: read-back line / patch / scatter data resp. return values, in the model comparison only). '
+        'Calls: %d fixed kinds (compute_features both methods / centrings / empty option dictionaries, '
+        'compute_shape_features, compute_burst_features, compute_cyclepoints, the individual shape / burst-feature / cyclepoint '
+        'functions, compute_features_2d / _3d on every axis with dict / list / grid options, recompute_edges, limit_df, epoch_df, '
+        'drop_samples_df, all plotting functions) plus %d parametrised kinds called repeatedly on the SAME objects with different '
+        'non-default settings (n_cycles 2/3/5/7, other fs / f_range, four find_extrema_kwargs, both centrings, both burst '
+        'methods, return_samples, directions, thresholds, axes, job counts), Bycycle.fit / recompute_edges / fresh Bycycle, '
+        'BycycleGroup.fit / recompute_edges, and documented helpers with non-default flags (rename_extrema_df('
+        'return_samples=False), split_samples_df, get_extrema_df, flatten_dfs, limit_signal, check_min_burst_cycles, '
+        'detect_bursts_cycles / _amp, find_flank_zerox, reduce_thresholds). User edits between calls (legitimate; the next call '
+        'must equal the clean-room result for the CURRENT values): sig *= c, sig += c, np.negative(sig, out=sig), refilling / '
+        'reversing / rolling the buffer in place, editing / deleting option dictionary entries at any depth, replacing table '
+        'columns, editing the 2-D / 3-D arrays, recomputing the tables, changing object settings. Streams: random sequences, '
+        '[a, b, a] for every fixed kind, one function with 3 settings interleaved, call / edit / call, helpers then peak- and '
+        'trough-centred analyses, object histories, group histories. Deep content hashes of every argument object before / '
+        'after every call (an object call may only change its own object). non-trivial = a history in which a call the property '
+        'speaks about is compared with its clean-room reference after at least one different call or user edit')
+ASSUMPTIONS = ['per-call frame conditions and history independence of the real code are established only on the explored '
+               'histories (partial)',
+               'the model lifts per-call purity to all histories with user edits, from any hidden state (proved); the clean-room '
+               'comparison over all histories is complete for the hidden states histories can reach (proved)',
+               'a by-value copy is a pickle round trip: object identity, memory layout of non-contiguous views and the '
+               'read-only flag of arrays are not part of an argument\'s value',
+               'the clean-room oracle is applied to the calls C15 lists and to the object / group entry points that wrap them; '
+               'results of other documented helpers are compared in the model comparison only']
+TRUST = ['harness: fork / pipe protocol of harness/props/c15.py (the parent never calls the library: guarded by pid check)']
+
+FIXED = ['cf_cycles', 'cf_amp', 'cf_trough', 'shape', 'burst_cycles', 'burst_amp', 'cyclepoints', 'g2d_dict', 'g2d_list',
+         'g2d_none', 'g3d', 'rc_edges', 'limit_df', 'epoch_df', 'drop_samples', 'plot_summary', 'plot_cp_df', 'plot_cp_array',
+         'plot_param', 'plot_feature', 'cf_amp_empty_thr', 'cf_cycles_empty_thr', 'cf_amp_empty_bk', 'rc_edges_no_bursts',
+         'limit_df_no_bursts',
+         'g3d_ax0', 'g3d_ax1_list', 'g3d_ax0_list', 'g3d_grid', 'g2d_none_dict', 'g2d_amp', 'g2d_none_amp', 'g3d_amp', 'g2d_rs',
+         'g2d_list_rs', 'g2d_none_rs', 'durations', 'extrema_voltage', 'symmetry', 'band_amp', 'amp_fraction',
+         'amp_consistency', 'amp_consistency_next', 'period_consistency', 'monotonicity', 'burst_fraction', 'find_extrema',
+         'find_zerox', 'phase', 'shape_trough', 'burst_trough', 'burst_trough_amp', 'plot_categorical',
+         'plot_categorical_group', 'bm_plot', 'bm_plot_nolim', 'plot_summary_nolim', 'plot_summary_only', 'plot_summary_step',
+         'plot_summary_trough', 'plot_summary_quiet', 'plot_cp_df_nolim', 'plot_cp_df_trough', 'plot_param_nolim_step',
+         'plot_hist_all', 'limit_df_start_none', 'limit_df_stop_none', 'limit_df_noreset', 'epoch_df_all', 'epoch_df_longer',
+         'rc_edges_trough']
+NFIXED = len(FIXED)
+PLOTS = {n for n in FIXED if n.startswith(('plot_', 'bm_plot'))}
+GROUPS = {n for n in FIXED if n.startswith(('g2d', 'g3d'))}
+CHEAP = [n for n in FIXED if n not in PLOTS and n not in GROUPS]
+SELF = {'bm_fit': 'bm', 'bm_rc': 'bm', 'bg_fit': 'bg', 'bg_rc': 'bg'}      # object calls: may change their own object only
 
 
-def cases(rng, tier):
+# ---------------------------------------------------------------------------------------------------------------------------
+# generators (every choice from the rng handed to `cases`)
+
+FSX = [1, 1, 1, 2, 0.5]
+BAND = ['std', 'std', 'narrow', 'wide', 'hi']
+FEK = [None, 'fek', 'fek2', 'fek_ns']
+PEAK_TABLES = ['df_samples', 'df_shape', 'df']
+SHAPE_TABLES = ['df_shape', 'df_shape_trough', 'df', 'df_trough']
+BURST_TABLES = ['df', 'df_trough', 'df_quiet']
+ALL_TABLES = ['df', 'df_trough', 'df_quiet', 'df_shape', 'df_shape_trough', 'df_amp']
+
+
+FSO = [1, 1, 1, 0.8, 1.25]
+
+
+def _fsband(r):
+    """fsx rescales the time axis (fs and f_range together: same digital filter), fso changes the sampling rate alone,
+    band changes the frequency range alone"""
+    return {'fsx': r.choice(FSX), 'fso': r.choice(FSO), 'band': r.choice(BAND)}
+
+
+def _bg_fit(r):
+    dim = r.choice([2, 2, 3])
+    return dict(dim=dim, axis=r.choice([0, 0, None] if dim == 2 else [0, 1, [0, 1]]), n_jobs=r.choice([1, 2]), **_fsband(r))
+
+
+def _g3d(r):
+    axis = r.choice([0, 1, [0, 1]])
+    return dict(cfk=r.choice(['cfk', 'cfk_grid', 'cfk_amp'] if axis == [0, 1] else ['cfk', 'cfk_list', 'cfk_amp']), axis=axis,
+                n_jobs=r.choice([1, 2]), **_fsband(r))
+
+
+def _family(name):
+    """the parametrised kind that calls the same library function as a fixed kind"""
+    for pre, fam in (('cf_', 'cf_p'), ('shape', 'shape_p'), ('burst_fraction', 'burst_fraction_p'), ('burst_', 'burst_p'),
+                     ('cyclepoints', 'cyclepoints_p'), ('g2d', 'g2d_p'), ('g3d', 'g3d_p'), ('rc_edges', 'rc_edges_p'), ('limit_df', 'limit_p'),
+                     ('epoch_df', 'epoch_p'), ('drop_samples', 'drop_p'), ('band_amp', 'band_amp_p'), ('amp_consistency', 'amp_cons_p'),
+                     ('period_consistency', 'per_cons_p'), ('find_extrema', 'find_extrema_p'), ('bm_plot', 'bm_fit')):
+        if name.startswith(pre):
+            return fam
+    return None
+
+
+PGEN = {
+    'cf_p': lambda r: dict(center=r.choice(['peak', 'trough']), method=r.choice(['cycles', 'cycles', 'amp']), fek=r.choice(FEK),
+                           bk=r.choice(['bk', 'bk2']), rs=r.random() < 0.8, **_fsband(r)),
+    'shape_p': lambda r: dict(center=r.choice(['peak', 'trough']), fek=r.choice(FEK), n_cycles=r.choice([2, 3, 5, 7]), **_fsband(r)),
+    'band_amp_p': lambda r: dict(table=r.choice(PEAK_TABLES), n_cycles=r.choice([2, 3, 5, 7]), **_fsband(r)),
+    'cyclepoints_p': lambda r: dict(fek=r.choice(FEK), **_fsband(r)),
+    'find_extrema_p': lambda r: dict(fek=r.choice(FEK), first=r.choice(['peak', 'trough', None]), **_fsband(r)),
+    'burst_p': lambda r: dict(table=r.choice(SHAPE_TABLES), method=r.choice(['cycles', 'amp']), bk=r.choice(['bk_feat', 'bk_feat2'])),
+    'burst_fraction_p': lambda r: dict(table=r.choice(PEAK_TABLES + ['df_trough']), at=r.choice([[0.5, 1.5], [1, 2], [0.3, 1.0]]),
+                                       mnc=r.choice([1, 2, 3, 5]), n_cycles=r.choice([2, 3, 5, 7]), **_fsband(r)),
+    'amp_cons_p': lambda r: dict(table=r.choice(SHAPE_TABLES), direction=r.choice(['both', 'next', 'last'])),
+    'per_cons_p': lambda r: dict(table=r.choice(SHAPE_TABLES), direction=r.choice(['both', 'next', 'last'])),
+    'rc_edges_p': lambda r: dict(table=r.choice(BURST_TABLES), thr=r.choice(['thr', 'thr_lo'])),
+    'limit_p': lambda r: dict(table=r.choice(ALL_TABLES), a=r.choice([None, 0.0, 0.1, 0.3]), b=r.choice([None, 0.6, 0.85, 1.0]),
+                              reset=r.random() < 0.6),
+    'epoch_p': lambda r: dict(table=r.choice(ALL_TABLES), frac=r.choice([0.2, 0.34, 0.5, 1.0])),
+    'drop_p': lambda r: dict(table=r.choice(ALL_TABLES)),
+    'g2d_p': lambda r: dict(cfk=r.choice(['cfk', 'cfk_list', 'cfk_amp', 'cfk_rs']), axis=r.choice([0, 0, None]),
+                            n_jobs=r.choice([1, 2]), rs=r.random() < 0.7, **_fsband(r)),
+    'g3d_p': lambda r: _g3d(r),
+    'bm_fit': lambda r: _fsband(r),
+    'bm_rc': lambda r: dict(red=r.choice([None, 0, 0.05, 0.1])),
+    'bm_new': lambda r: dict(center=r.choice(['peak', 'trough']), method=r.choice(['cycles', 'amp']), fek=r.choice(FEK)),
+    'bg_fit': lambda r: _bg_fit(r),
+    'bg_rc': lambda r: dict(red=r.choice([None, 0, 0.05])),
+}
+# documented helpers (their own results: model comparison only); the full grid of flag values is enumerated by `cases`
+HGRID = {
+    'h_rename': {'center': ['trough', 'peak'], 'table': ['df_shape', 'df', 'df_shape_trough'], 'rs': [True, False]},
+    'h_split': {'table': ALL_TABLES},
+    'h_extrema_df': {'table': ALL_TABLES},
+    'h_flatten': {'col': ['Label', 'epoch']},
+    'h_limit_signal': {'a': [None, 0.1, 0.3], 'b': [None, 0.7, 0.9]},
+    'h_minburst': {'n': [0, 1, 2, 4, 6]},
+    'h_detect': {'table': BURST_TABLES, 'thr': ['thr', 'thr_lo', 'e_thr']},
+    'h_detect_amp': {'thr': ['thr_amp', 'e_thr']},
+    'h_flank': {'flank': ['rise', 'decay'], 'mid': [None, 0.1]},
+    'h_reduce': {'red': [None, 0.1]},
+}
+for _h_name, _h_grid in HGRID.items():
+    PGEN[_h_name] = (lambda g: (lambda r: {k: r.choice(v) for k, v in g.items()}))(_h_grid)
+
+
+def _helper_grid():
+    import itertools
     out = []
-    n = 70 if tier == 'quick' else 600
-    lo, hi = (4, 8) if tier == 'quick' else (6, 16)
-    for _ in range(n):
-        k = rng.randint(lo, hi)
-        seq = [rng.randrange(NCALLS) for _ in range(k)]
-        a = rng.randrange(NCALLS)
-        seq[0] = a
-        seq[-1] = a
-        out.append({'kind': 'sequence', 'calls': seq, 'sig_kind': rng.choice(['sparse', 'bursty', 'sum']), 'seed': rng.randrange(1000)})
-    for a in range(NCALLS):
-        out.append({'kind': 'pair', 'calls': [a, (a + 7) % NCALLS, a], 'sig_kind': 'sparse', 'seed': 5})
+    for name in sorted(HGRID):
+        ks = sorted(HGRID[name])
+        for vals in itertools.product(*[HGRID[name][k] for k in ks]):
+            out.append(['c', name, dict(zip(ks, vals))])
     return out
 
 
+PNAMES = sorted(PGEN)
+HELPERS = [n for n in PNAMES if n.startswith('h_')]
+SETTINGS = ['cf_p', 'shape_p', 'band_amp_p', 'cyclepoints_p', 'find_extrema_p', 'burst_p', 'burst_fraction_p', 'amp_cons_p',
+            'per_cons_p', 'rc_edges_p', 'limit_p', 'epoch_p', 'g2d_p', 'bm_new']
+RULE = RULE % (NFIXED, len(PNAMES) - len(HELPERS))
+
+OPT_EDITS = [
+    ('thr', [], 'monotonicity_threshold', [0.3, 0.9]), ('thr', [], 'min_n_cycles', [1, 3, 4]), ('thr', [], 'amp_fraction_threshold', [0.0, 0.3]),
+    ('thr', [], 'amp_consistency_threshold', [0.1, 0.7]), ('thr', [], 'period_consistency_threshold', [0.2, 0.6]),
+    ('thr_lo', [], 'monotonicity_threshold', [0.1, 0.5]), ('thr_amp', [], 'burst_fraction_threshold', [0.3, 0.8]),
+    ('thr_amp', [], 'min_n_cycles', [1, 4]), ('bk', [], 'amp_threshes', [[0.3, 1.0], [1, 2]]), ('bk', [], 'min_n_cycles', [1, 4]),
+    ('bk2', [], 'amp_threshes', [[0.4, 1.1]]), ('bk_feat', [], 'amp_threshes', [[0.3, 1.0], [1, 2]]), ('bk_feat', [], 'min_n_cycles', [2, 4]),
+    ('bk_feat2', ['filter_kwargs'], 'n_cycles', [2, 7]), ('fek', [], 'boundary', [0, 5, 10]), ('fek', ['filter_kwargs'], 'n_cycles', [2, 5, 7]),
+    ('fek2', [], 'boundary', [3]), ('fek2', ['filter_kwargs'], 'n_cycles', [3, 7]), ('cfk', [], 'center_extrema', ['trough', 'peak']),
+    ('cfk', ['threshold_kwargs'], 'min_n_cycles', [3, 1]), ('cfk', [], 'find_extrema_kwargs', [{'filter_kwargs': {'n_cycles': 5}}]),
+    ('cfk_list', [1, 'threshold_kwargs'], 'monotonicity_threshold', [0.5, 0.0]), ('cfk_list', [0], 'center_extrema', ['trough']),
+    ('cfk_amp', ['burst_kwargs'], 'amp_threshes', [[0.3, 1.0]]), ('cfk_amp', ['threshold_kwargs'], 'burst_fraction_threshold', [0.2]),
+    ('cfk_rs', [], 'return_samples', [True]), ('e_thr', [], 'min_n_cycles', [2]), ('e_bk', [], 'amp_threshes', [[0.6, 1.4]]),
+    ('thr_g', [], 'monotonicity_threshold', [0.3, 0.8]), ('thr_g', [], 'min_n_cycles', [1, 3]),
+]
+OPT_DELETES = [('fek', [], 'boundary'), ('thr', [], 'amp_fraction_threshold'), ('bk', [], 'min_n_cycles'), ('e_thr', [], 'min_n_cycles'),
+               ('cfk', [], 'find_extrema_kwargs'), ('cfk_list', [0], 'center_extrema')]
+COL_EDITS = [('df', 'is_burst', 'flip'), ('df', 'volt_amp', 'reverse'), ('df', 'amp_consistency', 'reverse'), ('df', 'monotonicity', 'scale'),
+             ('df_shape', 'volt_rise', 'scale'), ('df_shape', 'period', 'scale'), ('df_shape', 'volt_amp', 'reverse'),
+             ('df_trough', 'is_burst', 'flip'), ('df_trough', 'period_consistency', 'reverse'), ('df_shape_trough', 'volt_decay', 'scale'),
+             ('df_shape_trough', 'period', 'reverse'), ('df_quiet', 'is_burst', 'flip'), ('df_amp', 'burst_fraction', 'reverse'),
+             ('df_samples', 'sample_zerox_rise', 'minus1')]
+
+
+def _gen_mut(r, what=None):
+    k = what or r.choice(['scale', 'scale', 'shift', 'neg', 'refill', 'reverse', 'roll', 'opt', 'opt', 'opt', 'del', 'col', 'col', 'sigs',
+                          'retable', 'bm', 'bg', 'extrema'])
+    if k == 'scale':
+        return ['m', 'scale', {'c': r.choice([2.0, 0.5, 3.0, -1.0, 0.1, 1000.0])}]
+    if k == 'shift':
+        return ['m', 'shift', {'c': r.choice([0.25, -0.5, 1.0])}]
+    if k == 'roll':
+        return ['m', 'roll', {'k': r.choice([3, 7, 20])}]
+    if k == 'opt':
+        d, path, key, vals = r.choice(OPT_EDITS)
+        return ['m', 'opt', {'dict': d, 'path': path, 'key': key, 'value': r.choice(vals)}]
+    if k == 'del':
+        d, path, key = r.choice(OPT_DELETES)
+        return ['m', 'del', {'dict': d, 'path': path, 'key': key}]
+    if k == 'col':
+        t, c, op = r.choice(COL_EDITS)
+        return ['m', 'col', {'table': t, 'col': c, 'op': op, 'c': r.choice([2.0, 0.5])}]
+    if k == 'sigs':
+        return ['m', 'sigs', {'which': r.choice(['sigs2', 'sigs3']), 'op': r.choice(['scale', 'row', 'neg']), 'c': r.choice([2.0, 0.5])}]
+    if k == 'bm':
+        return ['m', 'bm', {'edit': r.choice(['amp', 'cycles', 'trough', 'peak', 'fek2', 'fek', 'rs_false', 'rs_true', 'own_thr', 'thr_item'])}]
+    if k == 'bg':
+        return ['m', 'bg', {'edit': r.choice(['amp', 'cycles', 'trough', 'peak', 'fek2', 'thr_item'])}]
+    return ['m', k, {}]        # neg, refill, reverse, retable, extrema
+
+
+def _gen_call(r, name=None, pool=None):
+    if name is None:
+        name = r.choice(pool)
+    if name in PGEN:
+        return ['c', name, PGEN[name](r)]
+    return ['c', name, {}]
+
+
+def _key(st):
+    return st[1] + ' ' + json.dumps(st[2], sort_keys=True)
+
+
+def _distinct(r, name, n):
+    out, seen = [], set()
+    for _ in range(60):
+        st = _gen_call(r, name)
+        if _key(st) not in seen:
+            seen.add(_key(st))
+            out.append(st)
+        if len(out) == n:
+            break
+    return out
+
+
+SIG_EDITS = ['scale', 'scale', 'shift', 'neg', 'refill', 'reverse', 'roll']
+
+
+def _vary_one(r, st):
+    """the same call with exactly ONE setting changed (None if the kind has a single setting value)"""
+    name, a = st[1], st[2]
+    for _ in range(40):
+        b = PGEN[name](r)
+        diff = [f for f in a if b.get(f) != a[f]]
+        diff = [f for f in diff if _valid(name, dict(a, **{f: b[f]}))]
+        if diff:
+            f = r.choice(sorted(diff))
+            return ['c', name, dict(a, **{f: b[f]})], f
+    return None, None
+
+
+def _valid(name, a):
+    """argument combinations the documentation allows (the others only raise)"""
+    if name == 'bg_fit':
+        return a['axis'] in ([0, None] if a['dim'] == 2 else [0, 1, [0, 1]])
+    if name == 'g3d_p':
+        return a['cfk'] in (['cfk', 'cfk_grid', 'cfk_amp'] if a['axis'] == [0, 1] else ['cfk', 'cfk_list', 'cfk_amp'])
+    return True
+
+
+def _vary_field(r, st, f):
+    name, a = st[1], st[2]
+    for _ in range(60):
+        b = PGEN[name](r)
+        if f in b and b[f] != a.get(f) and _valid(name, dict(a, **{f: b[f]})):
+            return ['c', name, dict(a, **{f: b[f]})]
+    return None
+
+
+def _fields(r, name):
+    fs = set()
+    for _ in range(12):
+        fs |= set(PGEN[name](r))
+    return sorted(fs)
+
+
+def _relevant_edit(r, st):
+    """a user edit of an object the call reads: its signal, its table, its option dictionary"""
+    a = st[2]
+    cands = []
+    if a.get('table'):
+        cands += [['m', 'col', {'table': t, 'col': c, 'op': op, 'c': 2.0}] for t, c, op in COL_EDITS if t == a['table']]
+    dicts = [a[k] for k in ('fek', 'cfk', 'bk', 'thr') if a.get(k)]
+    if st[1] in ('cf_p', 'bm_new', 'bm_fit') or st[1].startswith(('cf_', 'rc_edges', 'plot_summary', 'plot_param')):
+        dicts += ['thr', 'thr_amp', 'bk']
+    if st[1] in ('bg_fit', 'bg_rc'):
+        dicts += ['thr_g', 'fek']
+    if st[1].startswith(('g2d', 'g3d')) and not a.get('cfk'):
+        dicts += ['cfk', 'cfk_list', 'cfk_amp', 'cfk_rs']
+    for d, path, key, vals in OPT_EDITS:
+        if d in dicts:
+            cands.append(['m', 'opt', {'dict': d, 'path': path, 'key': key, 'value': r.choice(vals)}])
+    if st[1].startswith(('g2d', 'g3d', 'bg_')):
+        cands += [_gen_mut(r, 'sigs') for _ in range(3)]
+    if st[1].startswith(('bm_', 'plot_summary')):
+        cands += [_gen_mut(r, 'bm')]
+    if st[1] in ('find_zerox', 'phase'):
+        cands += [_gen_mut(r, 'extrema')]
+    if cands and r.random() < 0.6:
+        return copy.deepcopy(r.choice(cands))
+    return _gen_mut(r, r.choice(SIG_EDITS))
+
+
+def cases(rng, tier):
+    q = tier == 'quick'
+    out = []
+
+    def add(kind, steps):
+        out.append({'kind': kind, 'steps': copy.deepcopy(steps), 'sig_kind': rng.choice(['sparse', 'bursty', 'sum']), 'seed': rng.randrange(1000)})
+
+    mixed = CHEAP * 2 + sorted(PLOTS) + sorted(GROUPS) + [n for n in PNAMES if n not in HELPERS] * 3 + HELPERS
+    # random sequences over everything; first call = last call
+    for _ in range(30 if q else 200):
+        k = rng.randint(4, 8) if q else rng.randint(6, 15)
+        steps = [_gen_mut(rng) if rng.random() < 0.22 else _gen_call(rng, pool=mixed) for _ in range(k)]
+        a = _gen_call(rng, pool=mixed)
+        add('sequence', [a] + steps[1:-1] + [a])
+    # every fixed kind: [a, b, a] with b the same library function with other settings (else another fixed kind), and
+    # [a, user edit of something a reads, a]
+    for rep in range(1 if q else 2):
+        for i, a in enumerate(FIXED):
+            st = ['c', a, {}]
+            fam = _family(a)
+            mid = _gen_call(rng, fam) if fam and rng.random() < 0.6 else ['c', FIXED[(i + 7 + 5 * rep) % NFIXED], {}]
+            add('pair', [st, mid, st])
+            if a not in PLOTS or rng.random() < 0.2:
+                add('pair-edit', [st, _relevant_edit(rng, st), st])
+    # one-factor variation: every parametrised kind x every one of its settings: [p, p with that setting changed, p, ...]
+    for rep in range(2 if q else 5):
+        for name in PNAMES:
+            if name in HELPERS:
+                continue
+            for f in _fields(rng, name):
+                p = _gen_call(rng, name)
+                p2 = _vary_field(rng, p, f)
+                if p2 is None:
+                    continue
+                steps = [p, p2, p]
+                if not q:
+                    p3, _ = _vary_one(rng, p)
+                    steps += [x for x in (p3, p2, p) if x][:rng.randint(0, 3)]
+                add('one-setting', steps)
+    # three unrelated settings of one function on the same objects
+    for _ in range(10 if q else 80):
+        name = rng.choice(SETTINGS)
+        ps = _distinct(rng, name, 3)
+        order = [0, 1, 0, 2, 1] if len(ps) == 3 else [0, 0]
+        if not q and rng.random() < 0.5:
+            order += [rng.randrange(len(ps)) for _ in range(rng.randint(1, 6))]
+        add('settings', [ps[i] for i in order])
+    # every parametrised kind: call / user edit / call / user edit / call
+    for rep in range(2 if q else 7):
+        for name in PNAMES:
+            if name in HELPERS:
+                continue
+            a = _gen_call(rng, name)
+            steps = [a]
+            for _ in range(2 if q else rng.randint(2, 5)):
+                steps.append(_relevant_edit(rng, a))
+                if rng.random() < 0.25:
+                    steps.append(_gen_mut(rng))
+                steps.append(a)
+            add('edits', steps)
+    # every documented helper with every combination of its flags (grid, three per history), then the same analysis
+    # peak- and trough-centred, then other analyses
+    for rep in range(1 if q else 4):
+        hs = _helper_grid()
+        rng.shuffle(hs)
+        per = 3 if q else rng.choice([1, 2, 3])
+        for i in range(0, len(hs), per):
+            pk = _gen_call(rng, rng.choice(['cf_p', 'shape_p']))
+            pk[2]['center'] = 'peak'
+            tr = copy.deepcopy(pk)
+            tr[2]['center'] = 'trough'
+            more = [_gen_call(rng, pool=['shape', 'shape_trough', 'cf_cycles', 'cf_trough', 'burst_cycles', 'burst_trough', 'band_amp',
+                                         'cyclepoints', 'rc_edges', 'rc_edges_trough', 'limit_df', 'limit_df_noreset', 'epoch_df',
+                                         'drop_samples', 'g2d_rs', 'g2d_none_rs', 'limit_p', 'epoch_p', 'burst_p', 'rc_edges_p'])
+                    for _ in range(rng.randint(1, 2 if q else 4))]
+            steps = hs[i:i + per] + [pk, tr] + more
+            if rng.random() < 0.5:
+                steps = [pk] + steps
+            add('helpers', steps)
+    # object histories
+    for _ in range(14 if q else 80):
+        fit = _gen_call(rng, 'bm_fit')
+        steps = [fit]
+        for _ in range(rng.randint(2, 3) if q else rng.randint(3, 8)):
+            steps.append(rng.choice([lambda: _gen_mut(rng, 'bm'), lambda: _gen_mut(rng, 'opt'), lambda: _gen_mut(rng, 'scale'),
+                                     lambda: _gen_mut(rng, 'refill'), lambda: _gen_call(rng, 'bm_rc'), lambda: _gen_call(rng, 'bm_new'),
+                                     lambda: _gen_call(rng, 'bm_plot')])())
+            steps.append(fit if rng.random() < 0.7 else _gen_call(rng, 'bm_fit'))
+        add('object', steps)
+    # group histories
+    for _ in range(8 if q else 45):
+        fit = _gen_call(rng, 'bg_fit')
+        steps = [fit]
+        for _ in range(2 if q else rng.randint(2, 5)):
+            steps.append(rng.choice([lambda: _gen_mut(rng, 'bg'), lambda: _gen_mut(rng, 'sigs'), lambda: _gen_call(rng, 'bg_rc'),
+                                     lambda: _gen_mut(rng, 'opt'), lambda: _gen_call(rng, 'g2d_p')])())
+            steps.append(fit if rng.random() < 0.7 else _gen_call(rng, 'bg_fit'))
+        add('group', steps)
+    return out
+
+
+def shrink(c):
+    """drop steps, from the front first"""
+    steps = c['steps']
+    if len(steps) > 3:
+        yield dict(c, steps=steps[len(steps) // 2:])
+    for i in range(len(steps)):
+        if len(steps) > 1:
+            yield dict(c, steps=steps[:i] + steps[i + 1:])
+
+
+# ---------------------------------------------------------------------------------------------------------------------------
+# content hashes and comparison
+
 def _h(obj):
+    """strict content hash: values, dtypes, shapes, column order, row labels"""
     import pandas as pd
     m = hashlib.sha256()
 
     def rec(o):
         if isinstance(o, np.ndarray):
-            m.update(str(o.dtype).encode() + str(o.shape).encode() + np.ascontiguousarray(o).tobytes())
+            if o.dtype == object:
+                m.update(b'obj' + str(o.shape).encode())
+                for x in o.ravel():
+                    rec(x)
+            else:
+                m.update(str(o.dtype).encode() + str(o.shape).encode() + np.ascontiguousarray(o).tobytes())
         elif isinstance(o, pd.DataFrame):
             m.update(repr(list(o.columns)).encode() + repr(list(o.index)).encode())
             for c in o.columns:
                 rec(np.asarray(o[c]))
+        elif isinstance(o, pd.Series):
+            m.update(repr(list(o.index)).encode())
+            rec(np.asarray(o))
         elif isinstance(o, dict):
             for k in sorted(o, key=repr):
                 m.update(repr(k).encode())
@@ -82,23 +465,192 @@ def _h(obj):
             for x in o:
                 rec(x)
             m.update(b']')
+        elif type(o).__module__.startswith('bycycle') and hasattr(o, '__dict__'):
+            m.update(type(o).__name__.encode())
+            rec(vars(o))
         else:
             m.update(repr(o).encode())
     rec(obj)
     return int(m.hexdigest()[:12], 16)
 
 
+def _num(a):
+    return a.dtype.kind in 'fiub'
+
+
+def _lh(res):
+    """value hash of a result: what `_vdiff` compares, nothing more (two raising calls are equal)"""
+    import pandas as pd
+    m = hashlib.sha256()
+
+    def rec(o):
+        if isinstance(o, pd.DataFrame):
+            m.update(b'T%d' % len(o))
+            for c in sorted(o.columns, key=str):
+                m.update(str(c).encode())
+                rec(np.asarray(o[c]))
+        elif isinstance(o, pd.Series):
+            rec(np.asarray(o))
+        elif isinstance(o, (list, tuple)) and not any(isinstance(x, (pd.DataFrame, pd.Series, np.ndarray, list, tuple, dict)) for x in o):
+            rec(np.asarray(o))
+        elif isinstance(o, np.ndarray):
+            m.update(b'A' + str(o.shape).encode())
+            if _num(o):
+                f = o.astype(float)
+                nan = np.isnan(f)
+                m.update(nan.tobytes() + (np.where(nan, 0.0, f) + 0.0).tobytes())
+            else:
+                for x in o.ravel().tolist():
+                    rec(x)
+        elif isinstance(o, dict):
+            for k in sorted(o, key=repr):
+                m.update(repr(k).encode())
+                rec(o[k])
+        elif isinstance(o, (list, tuple)):
+            m.update(b'[%d' % len(o))
+            for x in o:
+                rec(x)
+        elif isinstance(o, (bool, np.bool_, int, np.integer, float, np.floating)):
+            rec(np.asarray(o))
+        else:
+            m.update(repr(o).encode())
+    if res[0] == 'exc':
+        return -1
+    rec(res[1])
+    return int(m.hexdigest()[:12], 16)
+
+
+def _vdiff(x, y, path='result'):
+    """first difference in VALUE between two results, or None: column set, lengths, cell values with NaN == NaN.
+    Not compared: dtype, column order, row labels, container type of sequences."""
+    import pandas as pd
+    if isinstance(x, pd.DataFrame) or isinstance(y, pd.DataFrame):
+        if not (isinstance(x, pd.DataFrame) and isinstance(y, pd.DataFrame)):
+            return '%s: %s vs %s' % (path, type(x).__name__, type(y).__name__)
+        if set(x.columns) != set(y.columns):
+            return '%s: columns differ: %s' % (path, sorted(set(map(str, x.columns)) ^ set(map(str, y.columns))))
+        if len(x) != len(y):
+            return '%s: %d rows vs %d rows' % (path, len(x), len(y))
+        for c in x.columns:
+            d = _vdiff(np.asarray(x[c]), np.asarray(y[c]), '%s[%r]' % (path, c))
+            if d:
+                return d
+        return None
+    if isinstance(x, pd.Series):
+        x = np.asarray(x)
+    if isinstance(y, pd.Series):
+        y = np.asarray(y)
+    if isinstance(x, np.ndarray) or isinstance(y, np.ndarray):
+        if isinstance(x, (list, tuple)):
+            x = np.asarray(x)
+        if isinstance(y, (list, tuple)):
+            y = np.asarray(y)
+        if not (isinstance(x, np.ndarray) and isinstance(y, np.ndarray)):
+            return '%s: %s vs %s' % (path, type(x).__name__, type(y).__name__)
+        if x.shape != y.shape:
+            return '%s: shape %s vs %s' % (path, x.shape, y.shape)
+        if _num(x) and _num(y):
+            xf, yf = x.astype(float), y.astype(float)
+            bad = ~((xf == yf) | (np.isnan(xf) & np.isnan(yf)))
+            if bad.any():
+                i = int(np.flatnonzero(bad.ravel())[0])
+                return '%s: element %d: %r vs %r (%d of %d differ)' % (path, i, xf.ravel()[i], yf.ravel()[i], int(bad.sum()), bad.size)
+            return None
+        for i, (p, q) in enumerate(zip(x.ravel().tolist(), y.ravel().tolist())):
+            d = _vdiff(p, q, '%s[%d]' % (path, i))
+            if d:
+                return d
+        return None
+    if isinstance(x, dict) or isinstance(y, dict):
+        if not (isinstance(x, dict) and isinstance(y, dict)) or set(x) != set(y):
+            return '%s: dictionaries with different keys' % path
+        for k in x:
+            d = _vdiff(x[k], y[k], '%s[%r]' % (path, k))
+            if d:
+                return d
+        return None
+    if isinstance(x, (list, tuple)) or isinstance(y, (list, tuple)):
+        if not (isinstance(x, (list, tuple)) and isinstance(y, (list, tuple))):
+            return '%s: %s vs %s' % (path, type(x).__name__, type(y).__name__)
+        if len(x) != len(y):
+            return '%s: length %d vs %d' % (path, len(x), len(y))
+        for i, (p, q) in enumerate(zip(x, y)):
+            d = _vdiff(p, q, '%s[%d]' % (path, i))
+            if d:
+                return d
+        return None
+    if isinstance(x, (float, np.floating)) and isinstance(y, (float, np.floating)) and np.isnan(x) and np.isnan(y):
+        return None
+    try:
+        same = bool(x == y)
+    except Exception:
+        same = repr(x) == repr(y)
+    return None if same else '%s: %r vs %r' % (path, x, y)
+
+
+def _rdiff(a, b):
+    """history result vs clean-room result (each ('ok', value) or ('exc', kind, message))"""
+    if a[0] != b[0]:
+        return 'in the history the call %s, in the clean room it %s' % (
+            'returned' if a[0] == 'ok' else 'raised %s(%s)' % (a[1], a[2]), 'returned' if b[0] == 'ok' else 'raised %s(%s)' % (b[1], b[2]))
+    if a[0] == 'exc':
+        return None          # both raise: nothing returned, nothing to compare (class / message: model comparison only)
+    return _vdiff(a[1], b[1])
+
+
+# ---------------------------------------------------------------------------------------------------------------------------
+# the shared argument objects, the calls, the user edits (executed in H and R only)
+
+_ZPID = None
+
+
+def _preimport():
+    """import — never call — everything the children need, so that a fork is enough"""
+    global _ZPID
+    if _ZPID == os.getpid():
+        return
+    import pandas, matplotlib                                                   # noqa: F401
+    matplotlib.use('Agg')
+    import matplotlib.pyplot                                                    # noqa: F401
+    import neurodsp.filt, neurodsp.timefrequency, neurodsp.burst                # noqa: F401
+    import bycycle, bycycle.features, bycycle.features.shape, bycycle.features.burst, bycycle.features.cyclepoints   # noqa: F401
+    import bycycle.cyclepoints, bycycle.cyclepoints.zerox, bycycle.group, bycycle.burst, bycycle.burst.utils          # noqa: F401
+    import bycycle.utils.dataframes, bycycle.utils.timeseries, bycycle.plts, bycycle.objs                              # noqa: F401
+    _ZPID = os.getpid()
+
+
+def _guard():
+    if _ZPID is not None and os.getpid() == _ZPID:
+        raise RuntimeError('harness bug: library call attempted in the pristine parent process')
+
+
+def _band(fr, b):
+    lo, hi = fr
+    return {'std': (lo, hi), 'narrow': (lo * 1.15, hi * 0.85), 'wide': (lo * 0.8, hi * 1.2), 'hi': (lo * 1.3, hi * 1.3)}[b]
+
+
 def _env(c):
     import random
-    from bycycle.features import compute_features, compute_shape_features
+    _guard()
+    from bycycle.features import compute_features, compute_shape_features, compute_cyclepoints
+    from bycycle.cyclepoints import find_extrema
+    from bycycle.utils.dataframes import epoch_df
+    from bycycle import Bycycle, BycycleGroup
     s = gen.signal(random.Random(c['seed']), kind=c['sig_kind'], max_len=400)
     sig, fs, fr = s['sig'], s['fs'], tuple(s['f_range'])
+    n = len(sig)
+    other = gen.signal(random.Random(c['seed'] + 1), kind='bursty', max_len=400)['sig']
     thr = {'amp_fraction_threshold': 0.1, 'amp_consistency_threshold': 0.4, 'period_consistency_threshold': 0.4,
            'monotonicity_threshold': 0.6, 'min_n_cycles': 2}
     env = {
-        'sig': sig, 'thr': thr, 'thr_amp': {'burst_fraction_threshold': 0.5, 'min_n_cycles': 2},
-        'bk': {'amp_threshes': (0.5, 1.5)}, 'bk_feat': {'fs': fs, 'f_range': fr, 'amp_threshes': (0.5, 1.5)},
-        'fek': {'filter_kwargs': {'n_cycles': 3}, 'boundary': 2},
+        'sig': sig, 'buf2': np.resize(other, n).astype(float), 'thr': thr, 'thr_amp': {'burst_fraction_threshold': 0.5, 'min_n_cycles': 2},
+        'thr_lo': dict(thr, amp_consistency_threshold=0.2, period_consistency_threshold=0.2, monotonicity_threshold=0.4),
+        'thr_g': dict(thr),
+        'bk': {'amp_threshes': (0.5, 1.5)}, 'bk2': {'amp_threshes': (0.8, 1.8), 'filter_kwargs': {'n_cycles': 5}},
+        'bk_feat': {'fs': fs, 'f_range': fr, 'amp_threshes': (0.5, 1.5)},
+        'bk_feat2': {'fs': fs, 'f_range': fr, 'amp_threshes': (0.3, 1.2), 'min_n_cycles': 2, 'filter_kwargs': {'n_cycles': 5}},
+        'fek': {'filter_kwargs': {'n_cycles': 3}, 'boundary': 2}, 'fek2': {'filter_kwargs': {'n_cycles': 5}, 'boundary': 0},
+        'fek_ns': {'filter_kwargs': {'n_seconds': 2.5 / fr[0]}},
         'e_thr': {}, 'e_bk': {}, 'bk_min': {'min_n_cycles': 8},
         'sigs2': np.array([sig, sig[::-1].copy()]),
         'cfk': {'threshold_kwargs': dict(thr), 'center_extrema': 'peak'},
@@ -113,13 +665,12 @@ def _env(c):
                                                                        'min_n_cycles': 3})
     env['peaks'] = env['df']['sample_peak'].values.copy()
     env['troughs'] = env['df']['sample_last_trough'].values.copy()
-    # objects for the widened call list: cyclepoint table, trough-centred tables, extrema arrays, more option dictionaries
-    from bycycle.features import compute_cyclepoints
-    from bycycle.cyclepoints import find_extrema
-    from bycycle import Bycycle
     env['df_samples'] = compute_cyclepoints(sig, fs, fr)
     env['df_trough'] = compute_features(sig, fs, fr, center_extrema='trough', threshold_kwargs=copy.deepcopy(thr))
     env['df_shape_trough'] = compute_shape_features(sig, fs, fr, center_extrema='trough')
+    env['df_amp'] = compute_features(sig, fs, fr, burst_method='amp', burst_kwargs={'amp_threshes': (0.5, 1.5)},
+                                     threshold_kwargs={'burst_fraction_threshold': 0.5, 'min_n_cycles': 2})
+    env['epochs'] = epoch_df(env['df'], n, max(20, n // 3))
     env['pk'], env['tr'] = find_extrema(sig, fs, fr)
     env['cfk_amp'] = {'burst_method': 'amp', 'burst_kwargs': {'amp_threshes': (0.5, 1.5)},
                       'threshold_kwargs': {'burst_fraction_threshold': 0.5, 'min_n_cycles': 2}}
@@ -127,28 +678,37 @@ def _env(c):
     env['cfk_list_rs'] = [{'threshold_kwargs': dict(thr), 'return_samples': True}, {'threshold_kwargs': dict(thr), 'return_samples': False}]
     env['cfk_grid'] = [[{'threshold_kwargs': dict(thr)}, {'threshold_kwargs': dict(thr, min_n_cycles=3)}],
                        [{'center_extrema': 'trough'}, {'threshold_kwargs': dict(thr)}]]
-    # a fitted object sharing the caller's signal and threshold dictionary (for Bycycle.plot); its table is watched too
+    # a fitted object sharing the caller's signal and threshold dictionary; the table it was fitted with is watched too
     bm = Bycycle(thresholds=env['thr'])
     bm.fit(sig, fs, fr)
+    env['bm'] = bm
     env['bm_df'] = bm.df_features
-    OBJ['bm'] = bm
+    env['bg'] = BycycleGroup(thresholds=env['thr_g'], find_extrema_kwargs=env['fek'])
     return env, fs, fr
 
 
-OBJ = {}
-
-
-def _call(i, env, fs, fr):
+def _readback(jitter=False):
+    """the data the plot call handed to matplotlib: lines, bars, scatter offsets of every axes of every open figure.
+    plot_feature_categorical spreads its points along x with documented random jitter (np.random): only y is read there."""
     import matplotlib.pyplot as plt
-    name = CALL_NAMES[i]
-    try:
-        return _dispatch(name, env, fs, fr)
-    finally:
-        if name in PLOTS:
-            plt.close('all')
+    out = []
+    for num in sorted(plt.get_fignums()):
+        for ax in plt.figure(num).get_axes():
+            for ln in ax.get_lines():
+                out.append(np.asarray(np.ma.filled(np.ma.asarray(ln.get_xydata(), dtype=float), np.nan)))
+            for p in ax.patches:
+                if hasattr(p, 'get_height'):
+                    out.append(np.array([p.get_x(), p.get_width(), p.get_height()], dtype=float))
+            for col in ax.collections:
+                try:
+                    xy = np.asarray(np.ma.filled(np.ma.asarray(col.get_offsets(), dtype=float), np.nan))
+                    out.append(xy[:, 1].copy() if jitter else xy)
+                except Exception:
+                    pass
+    return out
 
 
-def _dispatch(name, env, fs, fr):
+def _fixed(name, env, fs, fr):
     from bycycle.features import (compute_features, compute_shape_features, compute_burst_features, compute_cyclepoints)
     from bycycle.features.shape import compute_durations, compute_extrema_voltage, compute_symmetry, compute_band_amp
     from bycycle.features.burst import (compute_amp_fraction, compute_amp_consistency, compute_period_consistency,
@@ -214,7 +774,7 @@ def _dispatch(name, env, fs, fr):
         'amp_consistency_next': lambda: compute_amp_consistency(env['df_shape_trough'], direction='next'),
         'period_consistency': lambda: compute_period_consistency(env['df_shape'], direction='last'),
         'monotonicity': lambda: compute_monotonicity(env['df_samples'], sig),
-        'burst_fraction': lambda: compute_burst_fraction(env['df_samples'], sig, fs, fr, amp_threshes=env['bk']['amp_threshes']),
+        'burst_fraction': lambda: compute_burst_fraction(env['df_samples'], sig, fs, fr, amp_threshes=tuple(env['bk']['amp_threshes'])),
         'find_extrema': lambda: find_extrema(sig, fs, fr, **env['fek']),
         'find_zerox': lambda: find_zerox(sig, env['pk'], env['tr']),
         'phase': lambda: extrema_interpolated_phase(sig, env['pk'], env['tr']),
@@ -224,8 +784,8 @@ def _dispatch(name, env, fs, fr):
         # plots: no xlim (the caller's table reaches the drawing code unsliced), result-only, step-wise, trough / burst-free tables
         'plot_categorical': lambda: plot_feature_categorical(env['df'], 'volt_amp'),
         'plot_categorical_group': lambda: plot_feature_categorical(env['df'], 'time_rdsym', group_by='is_burst'),
-        'bm_plot': lambda: OBJ['bm'].plot(xlim=(lo, hi)),
-        'bm_plot_nolim': lambda: OBJ['bm'].plot(),
+        'bm_plot': lambda: env['bm'].plot(xlim=(lo, hi)),
+        'bm_plot_nolim': lambda: env['bm'].plot(),
         'plot_summary_nolim': lambda: plot_burst_detect_summary(env['df'], sig, fs, thr),
         'plot_summary_only': lambda: plot_burst_detect_summary(env['df'], sig, fs, thr, plot_only_result=True),
         'plot_summary_step': lambda: plot_burst_detect_summary(env['df'], sig, fs, thr, xlim=(lo, hi), interp=False),
@@ -243,76 +803,434 @@ def _dispatch(name, env, fs, fr):
         'epoch_df_longer': lambda: epoch_df(env['df_trough'], n, n + 50),
         'rc_edges_trough': lambda: recompute_edges(env['df_trough'], thr),
     }
-    r = table[name]()
-    return None if name in PLOTS else r
+    return table[name]()
 
 
-def _res_hash(r):
-    return _h(r) if r is not None else 0
+def _param(name, a, env, fs, fr):
+    from bycycle.features import compute_features, compute_shape_features, compute_burst_features, compute_cyclepoints
+    from bycycle.features.shape import compute_band_amp
+    from bycycle.features.burst import compute_amp_consistency, compute_period_consistency, compute_burst_fraction
+    from bycycle.cyclepoints import find_extrema
+    from bycycle.cyclepoints.zerox import find_flank_zerox
+    from bycycle.group import compute_features_2d, compute_features_3d
+    from bycycle.burst import recompute_edges, detect_bursts_cycles, detect_bursts_amp
+    from bycycle.burst.utils import check_min_burst_cycles
+    from bycycle.utils.dataframes import limit_df, epoch_df, drop_samples_df, rename_extrema_df, split_samples_df, get_extrema_df, flatten_dfs
+    from bycycle.utils.timeseries import limit_signal
+    from bycycle import Bycycle
+    sig = env['sig']
+    n = len(sig)
+    fs2 = fs * a.get('fsx', 1) * a.get('fso', 1)
+    fr2 = tuple(f * a.get('fsx', 1) for f in _band(fr, a.get('band', 'std')))
+    fek = env[a['fek']] if a.get('fek') else None
+    axis = tuple(a['axis']) if isinstance(a.get('axis'), list) else a.get('axis')
+    if name == 'cf_p':
+        amp = a['method'] == 'amp'
+        return compute_features(sig, fs2, fr2, center_extrema=a['center'], burst_method=a['method'], burst_kwargs=env[a['bk']] if amp else None,
+                                threshold_kwargs=env['thr_amp'] if amp else env['thr'], find_extrema_kwargs=fek, return_samples=a['rs'])
+    if name == 'shape_p':
+        return compute_shape_features(sig, fs2, fr2, center_extrema=a['center'], find_extrema_kwargs=fek, n_cycles=a['n_cycles'])
+    if name == 'band_amp_p':
+        return compute_band_amp(env[a['table']], sig, fs2, fr2, n_cycles=a['n_cycles'])
+    if name == 'cyclepoints_p':
+        return compute_cyclepoints(sig, fs2, fr2, **(fek or {}))
+    if name == 'find_extrema_p':
+        return find_extrema(sig, fs2, fr2, first_extrema=a['first'], **(fek or {}))
+    if name == 'burst_p':
+        return compute_burst_features(env[a['table']], sig, burst_method=a['method'], burst_kwargs=env[a['bk']] if a['method'] == 'amp' else None)
+    if name == 'burst_fraction_p':
+        return compute_burst_fraction(env[a['table']], sig, fs2, fr2, amp_threshes=tuple(a['at']), min_n_cycles=a['mnc'],
+                                      filter_kwargs={'n_cycles': a['n_cycles']})
+    if name == 'amp_cons_p':
+        return compute_amp_consistency(env[a['table']], direction=a['direction'])
+    if name == 'per_cons_p':
+        return compute_period_consistency(env[a['table']], direction=a['direction'])
+    if name == 'rc_edges_p':
+        return recompute_edges(env[a['table']], env[a['thr']])
+    if name == 'limit_p':
+        return limit_df(env[a['table']], fs, start=None if a['a'] is None else a['a'] * n / fs, stop=None if a['b'] is None else a['b'] * n / fs,
+                        reset_indices=a['reset'])
+    if name == 'epoch_p':
+        return epoch_df(env[a['table']], n, max(10, int(a['frac'] * n)))
+    if name == 'drop_p':
+        return drop_samples_df(env[a['table']])
+    if name == 'g2d_p':
+        return compute_features_2d(env['sigs2'], fs2, fr2, compute_features_kwargs=env[a['cfk']], axis=axis, return_samples=a['rs'],
+                                   n_jobs=a['n_jobs'])
+    if name == 'g3d_p':
+        return compute_features_3d(env['sigs3'], fs2, fr2, compute_features_kwargs=env[a['cfk']], axis=axis, n_jobs=a['n_jobs'])
+    if name == 'bm_fit':
+        env['bm'].fit(sig, fs2, fr2)
+        return env['bm'].df_features
+    if name == 'bm_rc':
+        env['bm'].recompute_edges(a['red'])
+        return env['bm'].df_features
+    if name == 'bm_new':
+        amp = a['method'] == 'amp'
+        b = Bycycle(center_extrema=a['center'], burst_method=a['method'], burst_kwargs=env['bk'] if amp else None,
+                    thresholds=env['thr_amp'] if amp else env['thr'], find_extrema_kwargs=fek)
+        b.fit(sig, fs, fr)
+        return b.df_features
+    if name == 'bg_fit':
+        env['bg'].fit(env['sigs2'] if a['dim'] == 2 else env['sigs3'], fs2, fr2, axis=axis, n_jobs=a['n_jobs'])
+        return env['bg'].df_features
+    if name == 'bg_rc':
+        env['bg'].recompute_edges(a['red'])
+        return env['bg'].df_features
+    # documented helpers; those that rename / move / label in place by design get a private copy of the caller's table
+    if name == 'h_rename':
+        return rename_extrema_df(a['center'], copy.deepcopy(env[a['table']]), return_samples=a['rs'])
+    if name == 'h_split':
+        return split_samples_df(copy.deepcopy(env[a['table']]))
+    if name == 'h_extrema_df':
+        return get_extrema_df(env[a['table']])
+    if name == 'h_flatten':
+        return flatten_dfs(copy.deepcopy(env['epochs']), list(range(len(env['epochs']))), column_name=a['col'])
+    if name == 'h_limit_signal':
+        return limit_signal(np.arange(n) / fs, sig, start=None if a['a'] is None else a['a'] * n / fs,
+                            stop=None if a['b'] is None else a['b'] * n / fs)
+    if name == 'h_minburst':
+        return check_min_burst_cycles(np.array(env['df']['is_burst'].values, dtype=bool), min_n_cycles=a['n'])
+    if name == 'h_detect':
+        return detect_bursts_cycles(copy.deepcopy(env[a['table']]), **env[a['thr']])
+    if name == 'h_detect_amp':
+        return detect_bursts_amp(copy.deepcopy(env['df_amp']), **env[a['thr']])
+    if name == 'h_flank':
+        return find_flank_zerox(sig, a['flank'], midpoint=a['mid'])
+    if name == 'h_reduce':
+        return env['bm'].reduce_thresholds(a['red'])
+    raise KeyError(name)
 
 
-def run_impl(c):
+def _exec(st, env, fs, fr):
+    """one call on the given argument objects: ('ok', value) or ('exc', class, message)"""
+    import matplotlib.pyplot as plt
+    _guard()
+    name, a = st[1], st[2]
+    try:
+        if name in PGEN:
+            return ('ok', _param(name, a, env, fs, fr))
+        r = _fixed(name, env, fs, fr)
+        return ('ok', _readback(jitter=name.startswith('plot_categorical')) if name in PLOTS else r)
+    except Exception as e:
+        return ('exc', exc_kind(e), str(e)[:160])
+    finally:
+        if name in PLOTS:
+            plt.close('all')
+
+
+def _mutate(st, env, fs, fr):
+    """what a user may do to his own objects between two calls"""
+    _guard()
+    name, a = st[1], st[2]
+    sig = env['sig']
+    if name == 'scale':
+        sig *= a['c']
+    elif name == 'shift':
+        sig += a['c']
+    elif name == 'neg':
+        np.negative(sig, out=sig)
+    elif name == 'refill':
+        sig[:] = env['buf2']
+    elif name == 'reverse':
+        sig[:] = sig[::-1].copy()
+    elif name == 'roll':
+        sig[:] = np.roll(sig, a['k'])
+    elif name in ('opt', 'del'):
+        d = env[a['dict']]
+        for p in a['path']:
+            d = d[p]
+        if name == 'del':
+            d.pop(a['key'], None)
+        else:
+            v = copy.deepcopy(a['value'])
+            d[a['key']] = tuple(v) if a['key'] == 'amp_threshes' else v
+    elif name == 'col':
+        df, col = env[a['table']], a['col']
+        if col in df.columns:
+            v = df[col].values
+            df[col] = {'flip': lambda: ~v.astype(bool), 'reverse': lambda: v[::-1].copy(), 'scale': lambda: v * a['c'],
+                       'minus1': lambda: np.maximum(v - 1, 0)}[a['op']]()
+    elif name == 'sigs':
+        arr = env[a['which']]
+        if a['op'] == 'scale':
+            arr *= a['c']
+        elif a['op'] == 'neg':
+            np.negative(arr, out=arr)
+        else:
+            arr[-1] = arr[0][..., ::-1].copy()
+    elif name == 'retable':
+        from bycycle.features import compute_features, compute_shape_features, compute_cyclepoints
+        env['df_shape'] = compute_shape_features(sig, fs, fr)
+        env['df_samples'] = compute_cyclepoints(sig, fs, fr)
+        env['df'] = compute_features(sig, fs, fr, threshold_kwargs=dict(env['thr']))
+        env['df_trough'] = compute_features(sig, fs, fr, center_extrema='trough', threshold_kwargs=dict(env['thr']))
+    elif name in ('bm', 'bg'):
+        o, e = env[name], a['edit']
+        if e == 'amp':
+            o.burst_method, o.thresholds, o.burst_kwargs = 'amp', env['thr_amp'], env['bk']
+        elif e == 'cycles':
+            o.burst_method, o.thresholds, o.burst_kwargs = 'cycles', env['thr'] if name == 'bm' else env['thr_g'], {}
+        elif e in ('trough', 'peak'):
+            o.center_extrema = e
+        elif e in ('fek', 'fek2'):
+            o.find_extrema_kwargs = env[e]
+        elif e in ('rs_false', 'rs_true'):
+            o.return_samples = e == 'rs_true'
+        elif e == 'own_thr':
+            o.thresholds = dict(env['thr_lo'])
+        elif e == 'thr_item':
+            k = 'monotonicity_threshold' if 'monotonicity_threshold' in o.thresholds else 'burst_fraction_threshold'
+            o.thresholds[k] = 0.35 if o.thresholds.get(k) != 0.35 else 0.55
+    elif name == 'extrema':
+        env['pk'], env['tr'] = env['pk'][1:].copy(), env['tr'][1:].copy()
+    else:
+        raise KeyError(name)
+
+
+def _history(c, ref):
+    """executed in H: the whole history on one set of argument objects; `ref(bytes) -> bytes` asks the pristine parent
+    for a clean-room execution of one call"""
+    t0 = time.time()
     try:
         env, fs, fr = _env(c)
     except Exception as e:
         return {'skip': 'environment: %s %s' % (exc_kind(e), str(e)[:100])}
     keys = sorted(env)
-    before = [_h(env[k]) for k in keys]
-    out = {'env_before': before, 'keys': keys, 'mutations': [], 'results': [], 'errors': []}
-    cur = list(before)
-    for pos, i in enumerate(c['calls']):
-        try:
-            r = _call(i, env, fs, fr)
-            out['results'].append(_res_hash(r))
-        except Exception as e:
-            out['results'].append(-1)
-            out['errors'].append([pos, CALL_NAMES[i], exc_kind(e), str(e)[:100]])
+    cur = [_h(env[k]) for k in keys]
+    out = {'keys': keys, 'env0': cur, 'steps': [], 'n_ref': 0, 'ref_s': 0.0}
+    for st in c['steps']:
+        if st[0] == 'm':
+            err = None
+            try:
+                _mutate(st, env, fs, fr)
+            except Exception as e:
+                err = [exc_kind(e), str(e)[:100]]
+            cur = [_h(env[k]) for k in keys]
+            out['steps'].append({'t': 'm', 'env': cur, 'err': err})
+            continue
+        payload = pickle.dumps((st, env, fs, fr), protocol=4)          # the CURRENT values, before the call
+        mine = _exec(st, env, fs, fr)
         now = [_h(env[k]) for k in keys]
-        for k, a, b in zip(keys, cur, now):
-            if a != b:
-                out['mutations'].append([pos, CALL_NAMES[i], k])
+        t1 = time.time()
+        theirs = pickle.loads(ref(payload))
+        out['ref_s'] += time.time() - t1
+        out['n_ref'] += 1
+        allowed = SELF.get(st[1])
+        rec = {'t': 'c', 'key': _key(st), 'rh': _h(mine), 'lh': _lh(mine), 'eq': _h(mine) == _h(theirs), 'diff': None, 'env': now,
+               'changed': [k for k, x, y in zip(keys, cur, now) if x != y and k != allowed],
+               'exc': list(mine[1:]) if mine[0] == 'exc' else None}
+        if theirs[0] == 'harness':
+            rec['href'] = theirs[1]
+        else:
+            rec['diff'] = _rdiff(mine, theirs)
+        out['steps'].append(rec)
         cur = now
-    out['env_after'] = cur
+    out['hist_s'] = round(time.time() - t0 - out['ref_s'], 3)
+    out['ref_s'] = round(out['ref_s'], 3)
     return out
+
+
+def _ref_exec(payload):
+    """executed in R: one call on a by-value copy of the argument objects, nothing before it"""
+    st, env, fs, fr = pickle.loads(payload)
+    return _exec(st, env, fs, fr)
+
+
+# ---------------------------------------------------------------------------------------------------------------------------
+# processes
+
+def _send(fd, data):
+    data = struct.pack('<Q', len(data)) + data
+    while data:
+        k = os.write(fd, data[:1 << 16])
+        data = data[k:]
+
+
+def _read(fd, n):
+    buf = b''
+    while len(buf) < n:
+        chunk = os.read(fd, min(1 << 20, n - len(buf)))
+        if not chunk:
+            raise EOFError
+        buf += chunk
+    return buf
+
+
+def _recv(fd):
+    (n,) = struct.unpack('<Q', _read(fd, 8))
+    return _read(fd, n)
+
+
+def _fork_ref(payload):
+    r, w = os.pipe()
+    pid = os.fork()
+    if pid == 0:
+        try:
+            os.close(r)
+            try:
+                data = pickle.dumps(_ref_exec(payload), protocol=4)
+            except BaseException as e:
+                data = pickle.dumps(('harness', 'clean-room child failed: %s: %s' % (type(e).__name__, e)), protocol=4)
+            _send(w, data)
+        finally:
+            os._exit(0)
+    os.close(w)
+    try:
+        data = _recv(r)
+    except EOFError:
+        data = pickle.dumps(('harness', 'clean-room child died'), protocol=4)
+    finally:
+        os.close(r)
+        os.waitpid(pid, 0)
+    return data
+
+
+def run_impl(c):
+    _preimport()
+    up_r, up_w = os.pipe()          # H -> parent
+    dn_r, dn_w = os.pipe()          # parent -> H
+    pid = os.fork()
+    if pid == 0:
+        try:
+            os.close(up_r)
+            os.close(dn_w)
+
+            def ref(payload):
+                _send(up_w, b'R' + payload)
+                return _recv(dn_r)
+            try:
+                out = _history(c, ref)
+            except Exception as e:
+                out = {'harness_error': 'history process: %s: %s' % (type(e).__name__, str(e)[:300])}
+            _send(up_w, b'D' + pickle.dumps(out, protocol=4))
+        except BaseException:
+            pass
+        finally:
+            os._exit(0)
+    os.close(up_w)
+    os.close(dn_r)
+    out = None
+    try:
+        while True:
+            ready, _, _ = select.select([up_r], [], [], 2.0)
+            if not ready:
+                done, _ = os.waitpid(pid, os.WNOHANG)
+                if done:
+                    pid = None
+                    break
+                continue
+            try:
+                msg = _recv(up_r)
+            except EOFError:
+                break
+            if msg[:1] == b'R':
+                _send(dn_w, _fork_ref(msg[1:]))
+            else:
+                out = pickle.loads(msg[1:])       # plain dict of numbers and strings
+                break
+    finally:
+        os.close(up_r)
+        os.close(dn_w)
+        if pid is not None:
+            try:
+                if out is None:
+                    os.kill(pid, 9)
+                os.waitpid(pid, 0)
+            except Exception:
+                pass
+    return out if out is not None else {'harness_error': 'history process ended without a result'}
+
+
+# ---------------------------------------------------------------------------------------------------------------------------
+# verdicts
+
+def _calls(o):
+    return [s for s in o['steps'] if s['t'] == 'c']
+
+
+def _model_only(name):
+    """calls whose RESULT is outside the property text (it speaks of returned tables of the listed analysis functions): other
+    documented helpers, and the data a plot draws. Their clean-room comparison is part of the model comparison only."""
+    return name.startswith('h_') or name in PLOTS
 
 
 def oracle(c, o):
     if 'skip' in o:
         return None
-    if o['mutations']:
-        pos, name, k = o['mutations'][0]
-        return 'call %d (%s) modified the caller\'s argument object %r' % (pos, name, k)
-    first = {}
-    for pos, (i, r) in enumerate(zip(c['calls'], o['results'])):
-        if i in first and first[i][1] != r:
-            return 'call %s returned a different result at position %d than at position %d%s' % (
-                CALL_NAMES[i], pos, first[i][0], ' (%s)' % o['errors'] if o['errors'] else '')
-        first.setdefault(i, (pos, r))
+    cur, seen = o['env0'], []
+    for i, (st, s) in enumerate(zip(c['steps'], o['steps'])):
+        if s['t'] != 'c':
+            cur = s['env']
+            continue
+        for j, key, e, lh in seen:
+            if key == s['key'] and e == cur and lh != s['lh'] and not _model_only(st[1]):
+                return 'step %d (%s) returned a different result than the same call on the same argument values at step %d' % (i, s['key'], j)
+        seen.append((i, s['key'], cur, s['lh']))
+        cur = s['env']
+        if s['changed']:
+            return 'step %d (%s) modified the caller\'s argument object(s) %s' % (i, s['key'], s['changed'])
+        if s['diff'] and not _model_only(st[1]):
+            return ('step %d (%s) returned, after this history, a result that differs from the same call on copies of the current '
+                    'argument values in a fresh process: %s' % (i, s['key'], s['diff']))
     return None
 
 
 def nontrivial(c, o):
-    calls = c['calls']
-    return 'results' in o and any(calls[i] == calls[j] and any(calls[k] != calls[i] for k in range(i + 1, j))
-                                  for i in range(len(calls)) for j in range(i + 2, len(calls)))
+    """some call the property speaks about was compared with its clean-room reference after at least one DIFFERENT call or
+    user edit of the same history"""
+    if 'steps' not in o:
+        return False
+    ks = [(_key(st) if st[0] == 'c' else 'edit %d' % i) for i, st in enumerate(c['steps'])]
+    return any(st[0] == 'c' and not _model_only(st[1]) and 'href' not in s and any(k != ks[i] for k in ks[:i])
+               for i, (st, s) in enumerate(zip(c['steps'], o['steps'])))
+
+
+_STATS = {'n_ref': 0, 'ref_s': 0.0, 'hist_s': 0.0, 'raised': 0, 'calls': 0, 'edits': 0}
 
 
 def kind_of(c, o):
-    return c['kind'] + ('/skip' if 'skip' in o else '/some-call-raised' if o.get('errors') else '')
+    if 'steps' in o:
+        _STATS['n_ref'] += o['n_ref']
+        _STATS['ref_s'] += o['ref_s']
+        _STATS['hist_s'] += o['hist_s']
+        _STATS['calls'] += len(_calls(o))
+        _STATS['edits'] += len(o['steps']) - len(_calls(o))
+        _STATS['raised'] += sum(1 for s in _calls(o) if s['exc'])
+    return c['kind'] + ('/skip' if 'skip' in o else '/some-call-raised' if any(s['exc'] for s in _calls(o)) else '')
+
+
+def extra_evidence():
+    return {'cleanroom': {'reference_calls': _STATS['n_ref'], 'reference_cpu_wall_s_summed_over_workers': round(_STATS['ref_s'], 1),
+                          'history_cpu_wall_s_summed_over_workers': round(_STATS['hist_s'], 1), 'calls': _STATS['calls'],
+                          'user_edits': _STATS['edits'], 'calls_that_raised_in_history': _STATS['raised']}}
 
 
 def coq_case(c, o):
     if 'skip' in o:
         return None
-    # classes: index of the first position with an identical result among equal calls
-    classes = []
-    for pos, (i, r) in enumerate(zip(c['calls'], o['results'])):
-        cls = pos
-        for q in range(pos):
-            if c['calls'][q] == i and o['results'][q] == r:
+    zl = lambda xs: coqio.lst(['%d%%Z' % x for x in xs]) if xs else 'nil'
+    steps, recs, numbers, seen = [], [], {}, []
+    cur = o['env0']
+    for st, s in zip(c['steps'], o['steps']):
+        if s['t'] == 'm':
+            steps.append('HMut %s' % zl(s['env']))
+            cur = s['env']
+            continue
+        k = numbers.setdefault(s['key'], len(numbers))
+        steps.append('HCall %d' % k)
+        unchanged = not s['changed']
+        if unchanged and s['env'] != cur:          # an object call updated its own object: the user's object now has these values
+            steps.append('HMut %s' % zl(s['env']))
+        cls = len(seen)
+        for q, (k2, e2, r2) in enumerate(seen):
+            if k2 == k and e2 == cur and r2 == s['rh']:
                 cls = q
                 break
-        classes.append(cls)
-    zl = lambda xs: coqio.lst(['%d%%Z' % x for x in xs]) if xs else 'nil'
-    nl = lambda xs: coqio.lst(['%d' % x for x in xs], 'nat') if xs else 'nil'
-    return '(%s, %s)' % (zl(o['env_before']), nl(c['calls'])), '(%s, %s)' % (zl(o['env_after']), nl(classes))
+        seen.append((k, cur, s['rh']))
+        recs.append('(%d, %s, %s)' % (cls, coqio.B(bool(s['eq'])), coqio.B(unchanged)))
+        if unchanged:
+            cur = s['env']
+    final = o['steps'][-1]['env'] if o['steps'] else o['env0']
+    return ('(%s, %s)' % (zl(o['env0']), coqio.lst(steps) if steps else 'nil'),
+            '(%s, %s)' % (zl(final), coqio.lst(recs) if recs else 'nil'))
